@@ -130,6 +130,7 @@ fn main() {
         "resume" => families::resume(&a),
         "chunk" => families::chunk(&a),
         "fuzz" => families::fuzz(&a),
+        "endings" => families::endings(&a),
         "disccmp" => families::disccmp(&a),
         _ => {
             eprintln!("usage: pvh <smoke|walk|script> [--key value ...]");
